@@ -31,6 +31,8 @@ def run(ctx):
     chk.rule('O3', 'cleanup mirrors init on every path of the interposers and frees exactly what the per-thread record '
                    'allocated', floor=4)
     chk.rule('O4', 'descriptors that can outlive the creating function carry close-on-exec', floor=1)
+    chk.rule('O6', 'the strings of the environment (getenv results, environ) are only read, also inside callees that take them '
+                   'as const', floor=1)
     chk.rule('O5', 'nothing reachable from the interposers changes environment, working directory, umask, signal '
                    'state, ids, descriptors of the host or registers process-lifetime callbacks', floor=1)
     chk.explanation = (
@@ -193,6 +195,9 @@ def run(ctx):
         chk.ob('O5', 'deny-list-clear', not real_bad, '', '', '%d state-changing call(s) reachable' % len(real_bad),
                how='%d external call sites in %d reachable functions' % (len(cg.external_calls(reach)), len(reach)))
     chk.variant = 'as-configured'
+    # ---- O6: the environment strings themselves -------------------------------------------------------
+    from rules.C01 import environment_strings_untouched
+    environment_strings_untouched(ctx, ctx.program(facts.AS_CONFIGURED, 'lib'), ctx.callgraph(facts.AS_CONFIGURED, 'lib'), 'O6')
 
 
 def _dtor_guard_only(D):
